@@ -507,7 +507,66 @@ def io_fault_pass(exe, reftool, fx, workroot, tier):
         for n in limits:
             jobs.append((oi, kind, src, tmpl, n, False))
         jobs.append((oi, kind, src, tmpl, None, True))
+    # ---- read failures: the k-th read(2) on the input (or, for -e, on the output that is read back for the tag) fails with EIO, once
+    # (transient) or from then on (persistent); injected by strace's syscall tampering, for EVERY k up to the number of reads observed
+    rjobs, rnote = [], None
+    if shutil.which("strace") is None or subprocess.run(["strace", "-o", "/dev/null", "true"], stdout=subprocess.DEVNULL, stderr=subprocess.DEVNULL).returncode != 0:
+        rnote = "strace cannot trace here: read-failure points not explored"
+    else:
+        rops = [("e", fx.f, ["-e", "-i", "IN", "-o", "OUT", "-k", KEYTXT, "--cmode", "2", "--hmode", "1"], "IN", True),
+                ("e", big, ["-e", "-i", "IN", "-o", "OUT", "-k", KEYTXT, "--cmode", "1", "--hmode", "0"], "IN", True),
+                ("e", big, ["-e", "-i", "IN", "-o", "OUT", "-k", KEYTXT, "--cmode", "1", "--hmode", "2"], "OUT", True),
+                ("d", fx.valid, ["-d", "-i", "IN", "-o", "OUT", "-k", KEYTXT], "IN", True),
+                ("d", fx.valid, ["-d", "-i", "IN", "-o", "OUT", "-k", WRONG], "IN", False),
+                ("v", fx.valid, ["-v", "-i", "IN", "-k", WRONG], "IN", False)]
+        for ri, (kind, src, tmpl, which, rightkey) in enumerate(rops):
+            wd = os.path.join(root, "rprobe%d" % ri)
+            os.makedirs(wd, exist_ok=True)
+            inp, outp = os.path.join(wd, os.path.basename(src)), os.path.join(wd, "out.bin")
+            shutil.copyfile(src, inp)
+            argv = [inp if a == "IN" else outp if a == "OUT" else a for a in tmpl]
+            log = os.path.join(wd, "tr.log")
+            subprocess.run(["strace", "-f", "-o", log, "-P", inp if which == "IN" else outp, "-e", "trace=read", exe] + argv, stdout=subprocess.PIPE, stderr=subprocess.PIPE, env=env, cwd=wd, timeout=120, stdin=subprocess.DEVNULL)
+            nreads = sum(1 for l in open(log) if " read(" in l) if os.path.isfile(log) else 0
+            shutil.rmtree(wd, ignore_errors=True)
+            for k in range(1, nreads + 1):
+                for persistent in (False, True):
+                    rjobs.append((ri, kind, src, tmpl, which, rightkey, k, persistent))
+
+    def run_read(job):
+        ri, kind, src, tmpl, which, rightkey, k, persistent = job
+        wd = os.path.join(root, "r%d_%d_%d" % (ri, k, persistent))
+        os.makedirs(wd, exist_ok=True)
+        try:
+            inp, outp = os.path.join(wd, os.path.basename(src)), os.path.join(wd, "out.bin")
+            shutil.copyfile(src, inp)
+            argv = [inp if a == "IN" else outp if a == "OUT" else a for a in tmpl]
+            what = "`%s` with read #%d%s of the %s failing (EIO)" % (" ".join(tmpl).replace(WRONG, "<wrong key>").replace(KEYTXT, "<right key>"), k, " and every later one" if persistent else "", "input" if which == "IN" else "output (read back for the tag)")
+            try:
+                p = subprocess.run(["strace", "-f", "-o", "/dev/null", "-P", inp if which == "IN" else outp, "-e", "trace=read", "-e", "inject=read:error=EIO:when=%d%s" % (k, "+" if persistent else ""), exe] + argv,
+                                   stdout=subprocess.PIPE, stderr=subprocess.PIPE, env=env, cwd=wd, timeout=60, stdin=subprocess.DEVNULL)
+            except subprocess.TimeoutExpired:
+                return (job, "hang:failed-read:" + kind, what + " did not terminate within 60 s")
+            rc, se = p.returncode, p.stderr.decode("utf-8", "replace")
+            if rc < 0 or rc == 77 or "AddressSanitizer" in se:
+                return (job, "crash:failed-read:" + kind, what + ": " + ("killed by signal %d" % -rc if rc < 0 else "AddressSanitizer report"))
+            if rc == 0 and not rightkey:
+                return (job, "wrong-key-accepted-after-failed-read:" + kind, what + " exits 0 (wrong key accepted)")
+            if rc != 0 and not rightkey and kind == "d" and os.path.isfile(outp) and os.path.getsize(outp) > 0:
+                return (job, "wrong-key-wrote-output-after-failed-read", what + " wrote %d bytes" % os.path.getsize(outp))
+            if rc == 0 and not complete(kind, inp, outp, wd):
+                return (job, "exit0-after-failed-read:" + kind, what + " exits 0 although the result is not completely / correctly there (%s bytes written)" % (os.path.getsize(outp) if os.path.isfile(outp) else "no"))
+            return (job, None, "rc=%d" % rc)
+        finally:
+            shutil.rmtree(wd, ignore_errors=True)
+
     viol, outcomes, n = [], {}, 0
+    with cf.ThreadPoolExecutor(max_workers=c.NCPU) as ex:
+        for job, key, detail in ex.map(run_read, rjobs):
+            n += 1
+            outcomes[key or "holds"] = outcomes.get(key or "holds", 0) + 1
+            if key and sum(1 for v in viol if v["key"] == key) < 3:
+                viol.append({"key": key, "desc": detail, "replay": {"io_fault": ["read", job[0], job[6], job[7]]}})
     with cf.ThreadPoolExecutor(max_workers=c.NCPU) as ex:
         for job, key, detail in ex.map(run_one, jobs):
             n += 1
@@ -515,7 +574,7 @@ def io_fault_pass(exe, reftool, fx, workroot, tier):
             if key and sum(1 for v in viol if v["key"] == key) < 3:
                 viol.append({"key": key, "desc": detail, "replay": {"io_fault": [job[0], job[4], job[5]]}})
     shutil.rmtree(root, ignore_errors=True)
-    return {"io_fault_runs": n, "io_fault_outcomes": outcomes, "io_fault_complete_output_sizes": sizes,
+    return {"io_fault_runs": n, "io_fault_outcomes": outcomes, "io_fault_complete_output_sizes": sizes, "io_fault_read_failure_points": len(rjobs), "io_fault_read_note": rnote or "every read(2) index on the input / on the output read back for the tag, transient and persistent EIO (strace syscall tampering); -e, -d with the right key (exit 0 only with the complete correct result) and -d/-v with a wrong key (never exit 0, no output)",
             "io_fault_note": "real binary under RLIMIT_FSIZE = N for every N below the complete output size (100-byte -e and -d: every byte; 5000-byte -e: boundary values, thorough every 16th) and with -o /dev/full; "
                              "oracle: terminates, no crash, exit 0 only with the complete correct result, a diagnostic otherwise"}, viol
 
